@@ -98,7 +98,7 @@ def conc_scenarios():
         sc.append("set")
         sc.append("storeacc")
     sc.append("bigread")
-    sc += ["addrem", "keysstable", "streamtrim", "bpoptime", "counters", "bigmulti"]
+    sc += ["addrem", "keysstable", "streamtrim", "bpoptime", "counters", "bigmulti", "firsttouch"]
     return sc
 
 
